@@ -1,6 +1,6 @@
 (* C09 — exported theorems only: each is closed by [exact] and followed by Print Assumptions. *)
-From Coq Require Import List ZArith Bool.
-From Verif Require Import C09.Model C09.Spec C09.Proofs_Agg C09.Proofs_Float C09.Proofs_Mono C09.Proofs C09.Proofs_Mid.
+From Coq Require Import List ZArith Bool Permutation.
+From Verif Require Import C09.Model C09.Spec C09.Proofs_Agg C09.Proofs_Float C09.Proofs_Mono C09.Proofs C09.Proofs_Mid C09.Proofs_FloatAcc C09.Proofs_FloatMono C09.Proofs_ZoneMono C09.Proofs_Perm.
 Import ListNotations.
 Open Scope Z_scope.
 
@@ -29,6 +29,12 @@ Theorem c09_aggregate_refines : forall pods dang,
   a_dang a = um.
 Proof. exact aggregate_spec. Qed.
 Print Assumptions c09_aggregate_refines.
+
+(* the order of pods / reported metrics (Go map iteration over unmatched metrics) is irrelevant *)
+Theorem c09_perm_invariant : forall ps qs ds es,
+  Permutation ps qs -> Permutation ds es -> aggregate ps ds = aggregate qs es.
+Proof. exact aggregate_perm. Qed.
+Print Assumptions c09_perm_invariant.
 
 Theorem c09_closed_form : forall d, batch_dim d = with_thr (d_thr d) (clamp0 (upper d)).
 Proof. exact batch_dim_closed. Qed.
@@ -112,6 +118,58 @@ Theorem c09_zone : forall b n zs, forallb zone_nonneg zs = true ->
   forall i, zones_spec false b n i zs (zones_out b n i zs).
 Proof. exact zones_out_spec. Qed.
 Print Assumptions c09_zone.
+
+(* --- the percentage cap is evaluated in binary64 by the code (and exactly so by the model);
+       it never rounds above the exact percentage: for capacity*percent/100 <= 2^44 (16 Ti) --- *)
+Theorem c09_pct_le_exact : forall v p,
+  0 <= v < 2 ^ 53 -> 0 <= p < 2 ^ 53 -> v * p <= 100 * 2 ^ 44 -> 100 * mul_ratio v (f_pct p) <= v * p.
+Proof. exact mul_pct_le_exact. Qed.
+Print Assumptions c09_pct_le_exact.
+
+Theorem c09_cap_exact : forall d thr cap,
+  d_thr d = thr_term thr cap -> 0 <= thr < 2 ^ 53 -> 0 <= cap < 2 ^ 53 -> cap * thr <= 100 * 2 ^ 44 ->
+  100 * batch_dim d <= cap * thr.
+Proof. exact batch_dim_le_exact_pct. Qed.
+Print Assumptions c09_cap_exact.
+
+(* --- binary64 rounding is monotone, hence so are DivideResourceList, the percentage cap and the
+       safety margin; NUMA-zone amounts and the whole observable are antitone as well --- *)
+Theorem c09_divide_mono : forall v1 v2 n, 0 <= v1 <= v2 -> 0 < n -> div_ceil v1 n <= div_ceil v2 n.
+Proof. exact div_ceil_mono. Qed.
+Print Assumptions c09_divide_mono.
+
+Theorem c09_pct_mono : forall v1 v2 p1 p2, 0 <= v1 <= v2 -> 0 <= p1 <= p2 ->
+  mul_ratio v1 (f_pct p1) <= mul_ratio v2 (f_pct p2).
+Proof. exact mul_pct_mono. Qed.
+Print Assumptions c09_pct_mono.
+
+Theorem c09_zone_antitone : forall a b n i z,
+  input_leb a b = true -> input_nonneg a = true -> (0 < n)%nat ->
+  batch_dim (zone_cpu b n i z) <= batch_dim (zone_cpu a n i z) /\
+  batch_dim (zone_mem b n i z) <= batch_dim (zone_mem a n i z).
+Proof. exact zone_antitone. Qed.
+Print Assumptions c09_zone_antitone.
+
+(* the metamorphic clause (5) that bin/check evaluates on the implementation's two observables
+   holds for the model's two observables *)
+Theorem c09_antitone_observable : forall a b,
+  input_nonneg a = true -> antitone_code a b (run_batch a) (run_batch b) = 0.
+Proof. exact run_batch_antitone. Qed.
+Print Assumptions c09_antitone_observable.
+
+(* lowering a reclaim threshold percentage = raising the safety margin *)
+Theorem c09_antitone_reclaim : forall b cr mr,
+  0 <= b_cap_cpu b -> 0 <= b_cap_mem b ->
+  cr <= s_cpu_reclaim (b_s b) <= 100 -> mr <= s_mem_reclaim (b_s b) <= 100 ->
+  batch_dim (node_cpu (with_reclaim b cr mr)) <= batch_dim (node_cpu b) /\
+  batch_dim (node_mem (with_reclaim b cr mr)) <= batch_dim (node_mem b).
+Proof. exact reclaim_antitone. Qed.
+Print Assumptions c09_antitone_reclaim.
+
+Theorem c09_reclaim_observable : forall a b,
+  input_wf a = true -> reclaim_code a b (run_batch a) (run_batch b) = 0.
+Proof. exact run_batch_reclaim. Qed.
+Print Assumptions c09_reclaim_observable.
 
 (* --- the mid tier --- *)
 Theorem c09_mid_le_threshold : forall m, 0 <= m_cap_cpu m -> 0 <= m_cap_mem m ->
